@@ -73,7 +73,7 @@ static int build_args(const getter_t *g, arg_t *a) {
 	static const char *KNOWN[][5] = {
 		/* K_VOID */ {NULL}, /* K_BOARD */ {"master", "oc1", "lc1", "booster2", NULL}, /* K_POINT */ {"pointd", "point1", "point2", NULL},
 		/* K_SIGNAL */ {"signald", "signal1", NULL}, /* K_PERIPH */ {"led1", "led2", NULL}, /* K_SEG */ {"seg1", "seg2", "seg3", "seg4", NULL},
-		/* K_REV */ {"rev1", NULL}, /* K_TRAIN */ {"train1", "train2", NULL}, /* K_BOOSTER */ {"master", "booster2", NULL}, /* K_TOUT */ {"master", "booster2", NULL} };
+		/* K_REV */ {"rev1", NULL}, /* K_TRAIN */ {"train1", "train2", "train3", NULL}, /* K_BOOSTER */ {"master", "booster2", NULL}, /* K_TOUT */ {"master", "booster2", NULL} };
 	static const char *WRONG[][3] = { {NULL}, {"seg1", "train1", NULL}, {"signal1", "signald", NULL}, {"point1", "pointd", NULL}, {"point1", "head_light", NULL},
 		{"led1", "master", NULL}, {"seg1", NULL}, {"master", "head_light", NULL}, {"oc1", "train1", NULL}, {"oc1", "seg1", NULL} };
 	switch (g->akind) {
@@ -473,6 +473,8 @@ static void begin(int state, int presence, int start_poison) {
 	if (start_poison) { mallopt(M_PERTURB, start_poison); }
 #endif
 	cm_std(&M); for (int i = 1; i <= 3; i++) M.b[i].present = (presence >> (i - 1)) & 1;
+	/* a third train with no peripherals and no calibration: empty collections inside an entity (snapshot copy loops) */
+	{ cm_train_t *t = &M.t[M.nt++]; memset(t, 0, sizeof *t); snprintf(t->id, sizeof t->id, "train3"); t->addrl = 0x77; t->addrh = 0x00; t->steps = 14; }
 	quiet = 0; cm_install(&M); SB.on_msg = bus_hook;
 	CX.op = "bidib_start_pointer"; if (start_poison) scribble(start_poison);
 	if (hx_start_normal(0)) { if (CX.sibling) _exit(4); res_infra("normal start failed"); }
